@@ -135,3 +135,60 @@ PROPS["C03"] = {
                      "bounds": "adds the dimensions array of a multi-dimensional Variant array"},
     },
 }
+
+PROPS["C02"] = {
+    "module": "c02_decode",
+    "level": MC,
+    "technique": "Kani/CBMC symbolic execution of the binary decoders over all byte strings of a fixed length (Variant dispatch byte concrete per instance); panic/overflow/index/unwinding assertions plus explicit nesting-depth assertions",
+    "kernels": ["UAString/ByteString/Guid/NodeId/QualifiedName/LocalizedText/ExtensionObject::decode", "DiagnosticInfo::decode", "DataValue::decode", "Variant::decode", "Variant::decode_variant_value",
+                "HelloMessage/AcknowledgeMessage/ErrorMessage::decode", "SymmetricSecurityHeader/AsymmetricSecurityHeader/SequenceHeader::decode", "DepthLock::obtain"],
+    "explanation": "Each harness offers N fully symbolic bytes (N = 2..36 per type) to one decoder under small limits (strings/arrays <= 2) and asserts totality through Kani's built-in checks "
+                   "(panic, arithmetic overflow, slice index, unwinding). Recursion: DiagnosticInfo (every mask at every level symbolic), DataValue-in-Variant-in-DataValue (DataValue masks symbolic, "
+                   "Variant masks 0x17), Variant-in-Variant (0x18) and Variant arrays (0x98): a value that decodes Ok never nests deeper than the configured depth d in {1,2}. Variant array dimensions: "
+                   "product arithmetic cannot overflow and only matching dimensions are accepted. Truncation: streams that end inside a fixed-size payload yield Err.",
+    "outside": "byte strings longer than the stated N; Variant masks other than the listed instances; DateTime fields (calendar arithmetic does not solve) — DataValue masks with timestamp bits and Variant type 13 are excluded; "
+               "generated service messages; allocation sizes (C03 shows rejection precedes allocation); native stack depth is represented by the decoding-depth assertions, not measured",
+    "assumptions": ["alloc::fmt::format returns an empty String", UTF8_STUB, "paths through regex::Regex::new are cut (assume(false))",
+                    "streams::SrcLong cuts short reads (assume); truncated streams are explored by SrcTrunc instances with fixed-size payloads"],
+    "tiers": {
+        "quick": {"groups": [{"filters": ["c02_q_"], "timeout": 1500, "jobs": 16}],
+                  "bounds": "N <= 36 bytes; strings/arrays <= 2; depth d in {1,2}; Variant masks 0x01 0x06 0x0B 0x0C 0x17 0x18 0x1A 0xC6; unwind 4-20"},
+        "thorough": {"groups": [{"filters": ["c02_q_", "c02_t_"], "timeout": 2400, "jobs": 12}],
+                     "bounds": "adds NodeId, LocalizedText, AsymmetricSecurityHeader; Variant masks 0x0E 0x0F 0x11 0x13 0x14 0x15 0x16 0x19 0x98 0xA8; more truncation instances"},
+    },
+}
+
+PROPS["C12"] = {
+    "module": "c12_sequence",
+    "level": MC,
+    "technique": "Kani/CBMC symbolic execution of Chunker::validate_chunks on real MessageChunks with symbolic sequence numbers, request ids, channel ids and starting number, against the specification predicate",
+    "kernels": ["Chunker::validate_chunks", "MessageChunk::new", "MessageChunk::chunk_info", "SequenceHeader::decode", "MessageChunkHeader::decode"],
+    "explanation": "For messages of k = 1 and 2 chunks every sequence number, request id, sender channel id, the receiver's channel id and the starting number are symbolic u32. "
+                   "Asserted: Ok exactly when the numbers are consecutive without wrapping, the first is not below the starting number, all request ids equal the first and every chunk carries the "
+                   "receiver's channel id (or the receiver has id 0); the returned value is the last sequence number; presenting the same chunks again with start = returned + 1 (the call protocol "
+                   "of client and server) is rejected; no panic for any values (overflow near u32::MAX).",
+    "outside": "messages of 3 or more chunks (14 GB); the callers that maintain last_received_sequence_number (TcpTransport / client transport core: async, not constructible) - a caller passing the wrong "
+               "starting number is invisible here; the sending side (SendBuffer / MessageWriter counters)",
+    "assumptions": ["alloc::fmt::format returns an empty String", UTF8_STUB, "chrono::Utc::now returns a fixed instant", "policy None / mode None chunks (sequence header in clear)"],
+    "tiers": tiers("c12", quick_timeout=900, qbounds="k in {1,2} chunks, 2-byte bodies; all u32 values; unwind 4"),
+}
+
+PROPS["C13"] = {
+    "module": "c13_keys",
+    "level": MC,
+    "technique": "Kani/CBMC symbolic execution of hash::p_sha / SecurityPolicy::prf / make_secure_channel_keys / SecureChannel::derive_keys with OpenSSL HMAC replaced by a linear stand-in; differential check against an independent RFC 5246 P_hash + Part 6 Table 33 reference",
+    "kernels": ["opcua::crypto::hash::p_sha", "SecurityPolicy::prf", "SecurityPolicy::make_secure_channel_keys", "SecureChannel::derive_keys", "SecureChannel::set_local_nonce", "SecureChannel::set_remote_nonce"],
+    "explanation": "(1) Per policy: signing key, encrypting key and IV returned by make_secure_channel_keys equal the slices [0,s), [s,s+e), [s+e,s+e+b) of P_hash(secret, seed) computed by an independent "
+                   "reference in the harness, with (s,e,b) transcribed from Part 7 — for every value of the symbolic nonce bytes. (2) derive_keys on a client and a server channel after a nonce renewal: "
+                   "each side derives from the current nonces with secret/seed roles of Table 33, and each side's sending keys equal the other's receiving keys (nonces fully symbolic, "
+                   "make_secure_channel_keys replaced by a tagging stand-in).",
+    "outside": "HMAC/SHA themselves (OpenSSL FFI) - replaced by a linear mod-256 stand-in that is position-sensitive and key/data-asymmetric, so only the STRUCTURE (which bytes are hashed in which order, where keys are cut) is decided; "
+               "'different nonces give different keys' (needs PRF injectivity); nonce lengths beyond 3 bytes (the code has no length-dependent branch other than loops covered by unwinding assertions)",
+    "assumptions": ["hash::hmac_vec is replaced by stubs c13_keys::toy_hmac_vec; MessageDigest::sha1/sha256 return tagged handles", "alloc::fmt::format returns an empty String"],
+    "tiers": {
+        "quick": {"groups": [{"filters": ["c13_q_"], "timeout": 1500, "jobs": 8}],
+                  "bounds": "policies Basic128Rsa15, Basic256, Basic256Sha256; nonces of 2-3 bytes with one symbolic byte each (key slicing) / fully symbolic (agreement); unwind 90"},
+        "thorough": {"groups": [{"filters": ["c13_q_", "c13_t_"], "timeout": 2400, "jobs": 8}],
+                     "bounds": "adds Aes128Sha256RsaOaep, Aes256Sha256RsaPss"},
+    },
+}
